@@ -4,6 +4,9 @@ from symex.runner import Cell
 from . import common as cm
 
 PROP = 'C02'
+# real-library side: clauses about pure copying / sign flips (no arithmetic) are compared at rounding level, not at the generic 1e-6
+# (seeded change C02-e: a 'Hermitian fast path' replaced entries by values 1e-8 away; the z3 model reproduced only at this tolerance)
+COPY_TOL = 1e-14
 
 
 def phi_entry(q):
@@ -71,12 +74,12 @@ def real_embedding(env, m, k, n, layout):
 
     oracle = phi_interleaved if layout == 'interleaved' else phi_blocked
     EA = emb(env.twist(A))
-    env.eq('%s embedding = left-multiplication representation' % layout, EA, oracle(env, A))
+    env.eq('%s embedding = left-multiplication representation' % layout, EA, oracle(env, A), tol=COPY_TOL)
     env.holds('shape 4m x 4k', (len(EA), len(EA[0])) == (4 * m, 4 * k))
     EB = emb(B)
     AB = cm.qmat_from_nested(env, cm.matmul_oracle(env, A, B))
     env.eq('phi(A) phi(B) = phi(AB)', matmul_lists(emb(A), EB), emb(AB))
-    env.eq('phi(A^H) = phi(A)^T', emb(cm.qmat_from_nested(env, cm.herm_oracle(env, A))), transpose_lists(emb(A)))
+    env.eq('phi(A^H) = phi(A)^T', emb(cm.qmat_from_nested(env, cm.herm_oracle(env, A))), transpose_lists(emb(A)), tol=COPY_TOL)
     # real-linearity
     s, t = env.real('s'), env.real('t')
     A2 = env.qarr('c', (m, k))
@@ -112,7 +115,7 @@ def roundtrip(env, m, n):
     R = U.real_expand(A)
     Rt = env.twist(R)
     back = U.real_contract(Rt, m, n)
-    env.eq('real_contract(real_expand(A)) = A', cm.as_nested(env, back), cm.as_nested(env, A))
+    env.eq('real_contract(real_expand(A)) = A', cm.as_nested(env, back), cm.as_nested(env, A), tol=COPY_TOL)
     # A2A0123: column-blocked split [A0 A2 A1 A3]
     Af = cm.comps(env, A)
     stacked = env.np.hstack([Af[..., 0], Af[..., 2], Af[..., 1], Af[..., 3]])
